@@ -497,7 +497,8 @@ PLAN = {
 def run(tier):
     sched.configure(env.adaptix_src())
     report = Report()
-    deadline = time.time() + (240 if tier == "quick" else 10800)
+    # the thorough exploration stops at its time budget and reports `capped` (VERIF_C12_BUDGET overrides the 3 h default)
+    deadline = time.time() + (240 if tier == "quick" else int(os.environ.get("VERIF_C12_BUDGET", "10800")))
     shards = []
     for hname, rname, bound in PLAN[tier]:
         expected(hname)
